@@ -670,13 +670,13 @@ func (w *world) Do(line string) string {
 	if len(f) == 0 {
 		return "bad-op"
 	}
-	if f[0] == "conc" {
+	if f[0] == "conc" || f[0] == "hconc" {
 		return w.doConc(line)
 	}
 	w.callMu.Lock()
 	w.calls = nil // calls left over from an operation that panicked
 	w.callMu.Unlock()
-	if f[0] == "ev" || f[0] == "obs" || f[0] == "cs" || f[0] == "cw" {
+	if f[0] == "ev" || f[0] == "obs" || f[0] == "cs" || f[0] == "cw" || f[0] == "ch" || f[0] == "cr" || f[0] == "cg" {
 		return "ok" // recorded trace lines: the real run already happened (see conc.go); the model is the acceptor
 	}
 	if f[0] == "cfgpush" { // NoModel: the real config package as injected database
